@@ -107,9 +107,10 @@ class World(object):
         # names: distinct, lexicographic order unrelated to index order, varying length
         names = []
         seen = set()
+        gn = np.random.default_rng(spec.get('name_seed', spec['array_seed'] + 101))
         while len(names) < nm:
-            L = int(g.integers(3, 11))
-            s = ''.join(_ALPHA[int(k)] for k in g.integers(0, len(_ALPHA), L))
+            L = int(gn.integers(3, 11))
+            s = ''.join(_ALPHA[int(k)] for k in gn.integers(0, len(_ALPHA), L))
             if s not in seen and not any(s.startswith(t) or t.startswith(s) for t in seen):
                 seen.add(s)
                 names.append(s)
@@ -293,6 +294,17 @@ def write_conf(d, apdep, version, logd_step=0.02, length_subdir=0):
                 % (length_subdir, 'yes' if apdep else 'no', logd_step))
         if version == 2:
             f.write("version = 2\n")
+
+
+def prelude_spec(spec, rng):
+    """The previous occupant of the same directory: same layout, model names, filters and sizes, other numbers."""
+    p = dict(spec)
+    p['name_seed'] = spec.get('name_seed', spec['array_seed'] + 101)
+    p['array_seed'] = rng.randrange(1 << 30)
+    p['perm_seed'] = rng.randrange(1 << 30)
+    p['ext_slope'] = round(rng.uniform(1.0, 2.0), 3)
+    p['mixed'] = None
+    return p
 
 
 # ---------------------------------------------------------------------------------------------
